@@ -34,10 +34,10 @@ def handle : List String → Option String
       pure (showM3 B.A ++ " | " ++ showV3s [B.b] ++ " | " ++ showV3s (pts.map B.apply) ++ " | "
         ++ showV3s (pts.map (applySeq stages)))) rest
   | "pipeline" :: rest => run (do
-      -- pipeline <whitebalancing> <wb stage> <colour stage> R C (x y z)*(R*C) -> corrected pixels, row major
-      let wbOn ← P.bool; let wb ← pStage; let col ← pStage
+      -- pipeline <whitebalancing> <clip> <wb stage> <colour stage> R C (x y z)*(R*C) -> corrected pixels, row major
+      let wbOn ← P.bool; let clip ← P.bool; let wb ← pStage; let col ← pStage
       let r ← P.nat; let c ← P.nat; let px ← P.rep pV3 (r * c); P.done
-      pure (showV3s (pipeline wbOn wb col (chunk c px)).flatten)) rest
+      pure (showV3s (pipelineClip wbOn clip wb col (chunk c px)).flatten)) rest
   | "residual" :: rest => run (do
       let A ← pM3; let b ← pV3
       let pairs ← P.list (do let s ← pV3; let d ← pV3; pure (s, d)); P.done
